@@ -31,6 +31,10 @@ struct T {
     harness: bool,
     state: TState,
     pending: Option<Op>,
+    /// an unmodelled lock (see `nonblocking_locks`) the thread is about to take for real
+    want: Option<(&'static str, usize)>,
+    /// the unmodelled lock the thread was observed to block on
+    awaiting: Option<(&'static str, usize)>,
 }
 
 #[derive(Clone, Debug)]
@@ -54,6 +58,10 @@ struct Inner {
     threads: Vec<T>,
     running: Option<usize>,
     locks: HashMap<(&'static str, usize), usize>,
+    /// unmodelled locks: who holds them according to the hooks. Never used to disable a thread
+    /// (the real primitive decides who runs); only to know when a thread that blocked for real
+    /// has been woken, so that the scheduler waits for its arrival before the next choice
+    shadow: HashMap<(&'static str, usize), usize>,
     chans: HashMap<(&'static str, usize), i64>,
     tick_budget: HashMap<&'static str, usize>,
     default_tick_budget: usize,
@@ -146,6 +154,7 @@ impl Sched {
                 threads: Vec::new(),
                 running: None,
                 locks: HashMap::new(),
+                shadow: HashMap::new(),
                 chans: HashMap::new(),
                 tick_budget: HashMap::new(),
                 default_tick_budget: cfg.tick_budget,
@@ -215,6 +224,14 @@ impl Sched {
                 *e = e.saturating_sub(1);
             }
             _ => {}
+        }
+        if let Some(w) = g.threads[tid].want {
+            // about to take an unmodelled lock: if nobody holds it, it gets it at once; else it
+            // is expected to block for real (`want` stays set)
+            if !g.shadow.contains_key(&w) {
+                g.shadow.insert(w, tid);
+                g.threads[tid].want = None;
+            }
         }
         g.threads[tid].state = TState::Running;
         g.running = Some(tid);
@@ -304,9 +321,11 @@ impl Sched {
                 return;
             }
             if g.detect_real_blocking {
+                // a block that the shadow of an unmodelled lock predicts is confirmed quickly
+                let expected = g.running.is_some_and(|r| g.threads[r].want.is_some_and(|w| g.shadow.get(&w).is_some_and(|h| *h != r)));
                 let (ng, to) = self
                     .cv
-                    .wait_timeout(g, Duration::from_millis(10))
+                    .wait_timeout(g, Duration::from_millis(if expected { 1 } else { 10 }))
                     .unwrap_or_else(|e| e.into_inner());
                 g = ng;
                 if to.timed_out() {
@@ -319,9 +338,10 @@ impl Sched {
                         } else {
                             g.asleep = 0;
                         }
-                        if g.threads[r].state == TState::Running && (g.asleep >= 5 || g.last_progress.elapsed() > Duration::from_secs(3)) {
+                        if g.threads[r].state == TState::Running && (g.asleep >= if expected { 3 } else { 5 } || g.last_progress.elapsed() > Duration::from_secs(3)) {
                             g.asleep = 0;
                             g.threads[r].state = TState::Blocked;
+                            g.threads[r].awaiting = g.threads[r].want;
                             if g.keep_log {
                                 g.log.push(format!("T{r} blocks for real"));
                             }
@@ -337,6 +357,46 @@ impl Sched {
         }
     }
 
+    /// Before a choice: a thread that blocked for real on an unmodelled lock which (according to
+    /// the hooks) has been released since is on its way to its next hook; the set of enabled
+    /// threads is only defined once it has arrived.
+    fn settle<'a>(&'a self, mut g: MutexGuard<'a, Inner>) -> MutexGuard<'a, Inner> {
+        let t0 = Instant::now();
+        // threads blocked on a primitive the hooks do not know at all: they count as still blocked
+        // after three consecutive observations (1 ms apart, scheduler state unlocked in between)
+        // of the kernel reporting a futex wait; a woken thread is runnable and is waited for
+        let mut asleep: HashMap<usize, u32> = HashMap::new();
+        loop {
+            let mut on_the_way = (0..g.threads.len()).any(|t| {
+                let th = &g.threads[t];
+                th.state == TState::Blocked && th.awaiting.is_some_and(|w| g.shadow.get(&w).is_none_or(|h| *h == t))
+            });
+            for t in 0..g.threads.len() {
+                if g.threads[t].state == TState::Blocked && g.threads[t].awaiting.is_none() {
+                    let n = asleep.entry(t).or_insert(0);
+                    if kernel_blocked(g.threads[t].ktid) {
+                        *n += 1;
+                    } else {
+                        *n = 0;
+                    }
+                    if *n < 3 {
+                        on_the_way = true;
+                    }
+                }
+            }
+            if !on_the_way || g.ending || g.abort.is_some() {
+                return g;
+            }
+            if t0.elapsed() > Duration::from_secs(3) {
+                g.abort = Some(Abort::Diverged("a thread woken from an unmodelled lock did not arrive at its next hook".into()));
+                g.ending = true;
+                return g;
+            }
+            let (ng, _) = self.cv.wait_timeout(g, Duration::from_millis(1)).unwrap_or_else(|e| e.into_inner());
+            g = ng;
+        }
+    }
+
     fn register(self: &Arc<Self>, g: &mut Inner, kind: &str, harness: bool, pending: Option<Op>) -> usize {
         let tid = g.threads.len();
         g.threads.push(T {
@@ -347,6 +407,8 @@ impl Sched {
             harness,
             state: TState::Parked,
             pending,
+            want: None,
+            awaiting: None,
         });
         *g.registered.entry(kind.to_string()).or_insert(0) += 1;
         GUARD.with(|c| {
@@ -403,6 +465,13 @@ impl Sched {
                 if g.locks.get(&(*k, *id)) == Some(&tid) {
                     g.locks.remove(&(*k, *id));
                 }
+                if g.shadow.get(&(*k, *id)) == Some(&tid) {
+                    g.shadow.remove(&(*k, *id));
+                }
+                if g.threads[tid].want == Some((*k, *id)) {
+                    // took the unmodelled lock (after waiting for it) and gives it back already
+                    g.threads[tid].want = None;
+                }
                 g.last_progress = Instant::now();
             }
             (Op::Release(..), None) => {}
@@ -431,17 +500,34 @@ impl Sched {
                 if !Self::is_sched_point(&g, &op) {
                     return;
                 }
+                let mut next_want = None;
                 let op = match op {
-                    Op::Acquire(k, _) if g.nonblocking_locks.contains(&k) => Op::Point(k),
+                    Op::Acquire(k, id) if g.nonblocking_locks.contains(&k) => {
+                        next_want = Some((k, id));
+                        Op::Point(k)
+                    }
                     o => o,
                 };
                 // a thread that was taken for blocked re-joins here without holding the token
                 let holds = g.running == Some(tid);
+                // it is past the unmodelled lock it wanted: it holds it now (unless it has
+                // released it on the way, which cleared `want`)
+                if let Some(w) = g.threads[tid].want.take() {
+                    if !holds {
+                        // (the former holder's Release hook may not have run yet)
+                        g.shadow.insert(w, tid);
+                    }
+                }
+                g.threads[tid].awaiting = None;
+                g.threads[tid].want = next_want;
                 g.threads[tid].pending = Some(op);
                 g.threads[tid].state = TState::Parked;
                 g.last_progress = Instant::now();
                 if holds || g.running.is_none() {
-                    self.choose(&mut g, tid);
+                    g = self.settle(g);
+                    if g.running == Some(tid) || g.running.is_none() {
+                        self.choose(&mut g, tid);
+                    }
                 }
                 self.cv.notify_all();
                 self.wait_for_grant(g, tid);
@@ -468,9 +554,15 @@ impl Sched {
         g.threads[tid].state = TState::Finished;
         g.threads[tid].pending = None;
         g.locks.retain(|_, owner| *owner != tid);
+        g.shadow.retain(|_, owner| *owner != tid);
         if was_running || g.running.is_none() {
-            g.running = None;
-            self.choose(&mut g, tid);
+            // (the token stays with the finished thread while woken threads arrive, so that it is
+            // always this thread that makes the choice)
+            g = self.settle(g);
+            if g.running == Some(tid) || g.running.is_none() {
+                g.running = None;
+                self.choose(&mut g, tid);
+            }
         }
         self.cv.notify_all();
     }
